@@ -719,7 +719,12 @@ class PackageGenerator:
             two_level = r.random() < 0.6
             if two_level:
                 # a private base of the private base: its public members surface in the public subclasses as well
-                mb.body.append("class _Root:\n    def rooted(self, n: int = 1) -> int:\n        ...\n\n    root_attr: int = 0\n")
+                # _Root.shared is overridden by _Base.shared: every public subclass must show the nearer one, so the text
+                # of _Root.shared may not show up anywhere (token kind N)
+                tok_n = self.tokens.new("N", f"{mb.qname}._Root.shared", "overridden by the nearer private base")
+                root_doc = f'        """Root version, overridden below: {tok_n}."""\n' if self.f("DOCS") else ""
+                mb.body.append("class _Root:\n    def rooted(self, n: int = 1) -> int:\n        ...\n\n"
+                               f"    def shared(self, mode: int = 5) -> int:\n{root_doc}        ...\n\n    root_attr: int = 0\n")
                 mb.all_classes.append("_Root")
             mb.body.append(
                 f"class _Base{'(_Root)' if two_level else ''}:\n"
